@@ -228,6 +228,8 @@ MEMBERS = {
     "attrs-is-proxy": lambda: {"args": [], "attributes": {"__class__": "Pyro5.client.Proxy", "state": ["PYRO:inner@h:1", [], [], [], "hello", None]}},
     "state-is-proxy": lambda: {"state": {"__class__": "Pyro5.client.Proxy", "state": ["PYRO:inner@h:1", [], [], [], "hello", None]}},
     "wrapper-exc": lambda: {"exception": {"__class__": "os.system", "__exception__": True, "args": [SAFE_ARG]}},
+    "wrapper-exc-popen": lambda: {"exception": {"__class__": "subprocess.Popen", "__exception__": True, "args": [SAFE_ARG]}},
+    "wrapper-exc-app": lambda: {"exception": {"__class__": "vf.targets.CustomError", "__exception__": True, "args": [SAFE_ARG], "attributes": {}}},
     "wrapper-plain": lambda: {"exception": 5},
 }
 
@@ -333,6 +335,9 @@ def task(unit):
                                 V("side-effect-while-decoding|%s|%s" % (events[0].split(":")[0], tagkind), "audit events %r" % events[:4], case)
                             if targets.Canary.log:
                                 V("application-constructor-called", "Canary log %r" % targets.Canary.log[:3], case)
+                            if mname.startswith("wrapper-exc") and tag == "Pyro5.core._ExceptionWrapper" and res[0] == "ok":
+                                # the wrapped member carries a foreign class tag: refused like anywhere else in the tree
+                                V("foreign-tag-accepted|inside-exception-wrapper|%s" % mname, "decoding returned %s" % show(res[1], 160), case)
                             if res[0] == "base-exc":
                                 V("decoding-raised-%s" % type(res[1]).__name__, "%r" % res[1], case)
                             elif res[0] == "ok":
@@ -417,6 +422,26 @@ def registry_task(unit):
             for h in hs:
                 unreg(h)
             st.outcomes["reg:%s" % r.split(":")[0]] = st.outcomes.get("reg:%s" % r.split(":")[0], 0) + 1
+    # a converter registered under a bare, dot-free tag serves that tag only: no tag that merely ends in it
+    for bare in ("Widget", "Error"):
+        api.register_dict_to_class(bare, conv)
+        try:
+            for hostile in ("os." + bare, "a.b." + bare, "subprocess.Popen." + bare, "Pyro5.core." + bare, "os.__dict__." + bare, "." + bare, bare + ".x", bare.lower()):
+                for sname in sorted(serializers.serializers):
+                    ser = serializers.serializers[sname]
+                    for path in (0, 1):
+                        del calls[:]
+                        hn = {"__class__": hostile, "x": 1}
+                        try:
+                            ser.loads(enc[sname][0](hn)) if path == 0 else ser.loadsCall(enc[sname][1](hn))
+                            res = "ok"
+                        except Exception as x:
+                            res = type(x).__name__
+                        st.executions += 1
+                        if calls or res == "ok":
+                            V("converter-runs-for-another-tag|%s" % bare, "converter registered for %r ran / decoding succeeded for tag %r (%s/%s): %s, calls %r" % (bare, hostile, sname, path, res, calls))
+        finally:
+            api.unregister_dict_to_class(bare)
     # msgpack extension types: only the four documented codes may produce values
     import msgpack
     ok_types = allowed_types()
